@@ -272,6 +272,7 @@ func tokenizeForSemantics(content string) []semanticToken {
 	directiveType := ""
 	isPayee := false
 	currentLine := -1
+	lineStart := 0
 
 	for {
 		tok := lexer.Next()
@@ -279,8 +280,12 @@ func tokenizeForSemantics(content string) []semanticToken {
 			break
 		}
 
+		if tok.Type == parser.TokenNewline {
+			lineStart = tok.End.Offset
+		}
 		if tok.Pos.Line != currentLine {
 			currentLine = tok.Pos.Line
+			isPayee = false
 			if tok.Type == parser.TokenDirective {
 				inDirective = true
 				directiveType = tok.Value
@@ -313,7 +318,7 @@ func tokenizeForSemantics(content string) []semanticToken {
 
 		// Handle comments with tags - extract tag tokens
 		if tok.Type == parser.TokenComment {
-			tagTokens := extractTagTokensFromComment(tok)
+			tagTokens := extractTagTokensFromComment(tok, uint32(lsputil.UTF16Len(content[lineStart:tok.Pos.Offset])))
 			if len(tagTokens) > 0 {
 				tokens = append(tokens, tagTokens...)
 				continue
@@ -324,10 +329,13 @@ func tokenizeForSemantics(content string) []semanticToken {
 		if tok.Type == parser.TokenComment {
 			length++
 		}
+		if tok.Type == parser.TokenCode || (tok.Type == parser.TokenCommodity && content[tok.Pos.Offset] == '"') {
+			length = uint32(lsputil.UTF16Len(content[tok.Pos.Offset:tok.End.Offset]))
+		}
 
 		tokens = append(tokens, semanticToken{
 			line:      uint32(tok.Pos.Line - 1),
-			col:       uint32(tok.Pos.Column - 1),
+			col:       uint32(lsputil.UTF16Len(content[lineStart:tok.Pos.Offset])),
 			length:    length,
 			tokenType: semType,
 			modifiers: modifiers,
@@ -337,7 +345,7 @@ func tokenizeForSemantics(content string) []semanticToken {
 	return tokens
 }
 
-func extractTagTokensFromComment(tok parser.Token) []semanticToken {
+func extractTagTokensFromComment(tok parser.Token, baseCol uint32) []semanticToken {
 	commentText := tok.Value
 	if !strings.Contains(commentText, ":") {
 		return nil
@@ -345,7 +353,6 @@ func extractTagTokensFromComment(tok parser.Token) []semanticToken {
 
 	var tokens []semanticToken
 	baseLine := uint32(tok.Pos.Line - 1)
-	baseCol := uint32(tok.Pos.Column - 1)
 
 	parts := strings.Split(commentText, ",")
 	searchStart := 0
@@ -370,12 +377,12 @@ func extractTagTokensFromComment(tok parser.Token) []semanticToken {
 		tagStart += searchStart
 
 		// Tag name with colon: "name:"
-		tagNameWithColonLen := uint32(len(name) + 1)
+		tagNameWithColonLen := uint32(lsputil.UTF16Len(name) + 1)
 
 		// +1 to baseCol accounts for the semicolon that starts the comment
 		tokens = append(tokens, semanticToken{
 			line:      baseLine,
-			col:       baseCol + 1 + uint32(tagStart),
+			col:       baseCol + 1 + uint32(lsputil.UTF16Len(commentText[:tagStart])),
 			length:    tagNameWithColonLen,
 			tokenType: TokenTypeTag,
 			modifiers: 0,
@@ -391,8 +398,8 @@ func extractTagTokensFromComment(tok parser.Token) []semanticToken {
 				if valueStart != -1 {
 					tokens = append(tokens, semanticToken{
 						line:      baseLine,
-						col:       baseCol + 1 + uint32(tagNameEnd+valueStart),
-						length:    uint32(len(value)),
+						col:       baseCol + 1 + uint32(lsputil.UTF16Len(commentText[:tagNameEnd+valueStart])),
+						length:    uint32(lsputil.UTF16Len(value)),
 						tokenType: TokenTypeTagValue,
 						modifiers: 0,
 					})
